@@ -74,11 +74,29 @@ def c04_reading(args):
             return 'alignment left in triple %r' % (t,)
         if '~' in t[1]:
             return 'alignment left in role %r' % (t,)
+    # the same reading through the public entry point, from the text of the tree
+    try:
+        text = penman.format(Tree(node))
+        if penman.parse(text).node != node:
+            return None          # not a tree that is read back from its own text (C01's domain)
+    except Exception:
+        return None
+    try:
+        g2 = penman.decode(text, model=model)
+    except Exception as e:
+        return 'decode raised %s on %r' % (type(e).__name__, text[:80])
+    if g2.top != g.top or g2.triples != g.triples or set(g2.variables()) != set(g.variables()):
+        return 'decode(text) differs from the reading of the tree: %r -> %r' % (text[:80], g2.triples[:6])
+    if {k: list(map(repr, v)) for k, v in g2.epidata.items()} != {k: list(map(repr, v)) for k, v in g.epidata.items()}:
+        return 'decode(text) attaches other markers than the reading of the tree: %r' % (text[:80],)
     return None
 
 
 C04_VARS = ['a', 'b', 'c']
-C04_ATOMS = ['k', '"s~1"', '"s"~2', 'a', 'b', 'c', 'x~1', 'b~e.3', None, '7', '"~"', '"a~b"~1']
+C04_ATOMS = ['k', '"s~1"', '"s"~2', 'a', 'b', 'c', 'x~1', 'b~e.3', None, '7', '"~"', '"a~b"~1',
+             # name characters outside ASCII that other notations treat as blanks or line ends: part of the
+             # symbol, so `b\u2028` is a constant, not the variable b
+             'b\u2028', '\x85k', 'a\x1c', 'c\xa0']
 C04_ROLES = [':R', ':R-of', ':R-of-of', ':consist-of', ':consist-of-of', ':R~1',
              ':R-of~e.2', ':', ':mod-of', ':S', ':loc-of']
 C04_CONC = [None, 'x', 'a', 'x~1', '"q"', '"q~1"~2']
